@@ -134,6 +134,21 @@ def render_job(seed):
         return '\n'.join(l for l in text.split('\n') if l.strip(' ') != '' and not l.lstrip(' ').startswith(marker))
     if strip_lines(sql1, '-- ') != strip_lines(sql0, '-- ') and strip_lines(sql1, '--') != strip_lines(sql0, '--'):
         fails.append(('SQL comment lines are not all prefixed with "-- "', sql1))
+    # every element the SQL renderer emits carries its comment there: each expected comment line is found (a many-to-many
+    # reference is emitted as several statements and may repeat it), and no comment line comes from nowhere
+    import collections as _c
+    want_lines = []
+    for el in ([x for t in with_c['tables'] for x in [t] + t['columns'] + t['indexes']]
+               + [x for e in with_c['enums'] for x in [e] + e['items']] + with_c['refs']):
+        if el.get('comment'):
+            want_lines += el['comment'].split('\n')
+    got_lines = [l.lstrip(' ')[3:] for l in sql1.split('\n') if l.lstrip(' ').startswith('-- ')]
+    base_lines = [l.lstrip(' ')[3:] for l in sql0.split('\n') if l.lstrip(' ').startswith('-- ')]
+    missing = _c.Counter(want_lines) - (_c.Counter(got_lines) - _c.Counter(base_lines))
+    if missing:
+        fails.append((f'the SQL script does not show the comment line {sorted(missing)[0]!r} of an element it emits', sql1))
+    elif set(got_lines) - set(want_lines) - set(base_lines):
+        fails.append((f'the SQL script shows a comment line nobody wrote: {sorted(set(got_lines) - set(want_lines) - set(base_lines))[0]!r}', sql1))
     if strip_lines(dbml1, '//') != strip_lines(dbml0, '//'):
         fails.append(('DBML comment lines are not all prefixed with "// "', dbml1))
     # DBML: parses back to the same content; comments come back where DBML can carry them
